@@ -142,12 +142,17 @@ def build_host(resources, mwset, mount, meta=None):
 
     def func(request):
         return 'f'
+
+    import re as _re
+
+    def with_defaults(request, a=object(), b=json.dumps, c=int, d=_re.compile('x+'), e=(1, 2), f={'k': {1, 2}}, g=b'bytes', h=1.5):
+        return 'defaults'
     e = Endpoints()
     here = os.path.dirname(os.path.abspath(__file__))
     inner = Application([('/inner', func, render_basic)])
     routes = [('/func', func, render_basic), ('/lambda', lambda: 'l', render_basic), ('/method', e.method, render_basic),
               ('/callable', e, render_basic), ('/static', Endpoints.static, render_basic), ('/cls', Endpoints.cls, render_basic),
-              ('/deco', decorated, render_basic), StaticFileRoute('/file', os.path.abspath(__file__)),
+              ('/deco', decorated, render_basic), ('/defaults', with_defaults, render_basic), StaticFileRoute('/file', os.path.abspath(__file__)),
               ('/assets', StaticApplication(here)), ('/sub', inner), ('/tmpl', func, 'a_template_name')]
     mws = []
     if mwset == 'cookie':
